@@ -327,7 +327,7 @@ def _check_request(ctx, spec, model, fire, machine, objs, log, name, label, wit_
     return True
 
 
-def _sequential_random(ctx, n_machines, n_requests):
+def _sequential_random(ctx, n_machines, n_requests, p_allowed=0.6):
     rng = ctx.rng
     for i in range(n_machines):
         spec = random_spec(rng)
@@ -339,7 +339,7 @@ def _sequential_random(ctx, n_machines, n_requests):
         for _ in range(n_requests):
             # bias towards allowed requests so the walk moves
             ok_names = [t for t, (srcs, _) in spec.transitions.items() if model.current in srcs]
-            name = rng.choice(ok_names) if ok_names and rng.random() < 0.6 else rng.choice(names)
+            name = rng.choice(ok_names) if ok_names and rng.random() < p_allowed else rng.choice(names)
             m.budget = spec.budget
             hist.append(name)
             if name in ok_names:
@@ -626,6 +626,9 @@ def run(ctx):
     from lib import vtime
     vtime.install()
     _sequential_random(ctx, 150 if ctx.quick else 15000, 25)
+    # long lives: hundreds of requests on one machine, a majority of them refused (anything a refusal leaves behind adds up)
+    _sequential_random(ctx, 6 if ctx.quick else 300, 600, p_allowed=0.3)
+    ctx.count("long_histories_with_hundreds_of_refusals", 6 if ctx.quick else 300)
     _sequential_shipped(ctx)
     _concurrent(ctx, 40 if ctx.quick else 5000)
     _concurrent_shipped(ctx, 25 if ctx.quick else 3000)
